@@ -12,6 +12,7 @@ import contextlib
 import logging
 import os
 import re
+import stat
 from pathlib import Path
 from typing import Collection, Generator, Optional, cast
 
@@ -112,6 +113,18 @@ def is_path_ignored(
         ):
             _LOGGER.info("ignoring '%s' because it is a submodule", path)
             return True
+
+    else:
+        # A named pipe, a socket or a device is no file to license (and
+        # opening one might block). Something that cannot be examined at all
+        # is left to the reader, which reports it.
+        with contextlib.suppress(OSError):
+            mode = path.lstat().st_mode
+            if not stat.S_ISREG(mode) and not stat.S_ISDIR(mode):
+                _LOGGER.debug(
+                    "skipping '%s', which is not a regular file", path
+                )
+                return True
 
     if vcs_strategy and vcs_strategy.is_ignored(path):
         return True
